@@ -527,8 +527,8 @@ func main() {
 		keyI: []named[func(int) int]{{"id", func(x int) int { return x }}, {"neg", func(x int) int { return -x }}, {"mod2", func(x int) int { return x % 2 }}, {"const", func(int) int { return 0 }}},
 	}
 	strs := &dom[string]{name: "[]string", elems: []string{"", "a", "b"}, show: strconv.Quote,
-		fs:   []named[func(string) string]{{"addx", func(x string) string { return x + "x" }}, {"dup", func(x string) string { return x + x }}, {"constk", func(string) string { return "k" }}, {"id", func(x string) string { return x }}},
-		ps:   []named[func(string) bool]{{"empty", func(x string) bool { return x == "" }}, {">a", func(x string) bool { return x > "a" }}, {"true", func(string) bool { return true }}, {"false", func(string) bool { return false }}},
+		fs: []named[func(string) string]{{"addx", func(x string) string { return x + "x" }}, {"dup", func(x string) string { return x + x }}, {"constk", func(string) string { return "k" }}, {"id", func(x string) string { return x }}},
+		ps: []named[func(string) bool]{{"empty", func(x string) bool { return x == "" }}, {">a", func(x string) bool { return x > "a" }}, {"true", func(string) bool { return true }}, {"false", func(string) bool { return false }}},
 		keyI: []named[func(string) int]{{"len", func(x string) int { return len(x) }}, {"isb", func(x string) int {
 			if x == "b" {
 				return 0
